@@ -1,10 +1,17 @@
 """AST probes for rl4co/envs/routing/mtvrp/env.py: the comparison operators of the mask, the checker and
-the termination test.  The Lean model `Rl4co/Env/Mtvrp.lean` is parametric in them."""
+the termination test, and the decision-critical expression shapes of `_get_reward` (roll direction, which end
+of a leg is tested against the depot), `_step` (reset guard, clock update) and the depot rule of the mask.
+The Lean model `Rl4co/Env/Mtvrp.lean` is parametric in all of them; `Rl4co/Proofs/MtvrpRun.lean` proves the
+unfolding lemmas (`moved_eq`, `legTime_eq`, `depotRule_eq`, `reward_eq`) the property theorems rest on, so a
+one-token edit of any of these expressions breaks a proof obligation at `lake build`.
+A probe that does not find its statement shape returns None (pattern-miss → committed default, never an alarm)."""
+import ast
 
 MT = "rl4co/envs/routing/mtvrp/env.py"
 
 
 def register(ex):
+    _shape_probes(ex)
     p, c = ex.probe, ex.cmp_probe
     p("mtvrpMaskTwCmp", "Cmp", ".le", "mtvrp/env.py:get_action_mask  `arrival_time <= late_tw` (customer deadline)",
       c(MT, "MTVRPEnv.get_action_mask", "arrival_time", "late_tw"))
@@ -34,3 +41,177 @@ def register(ex):
     p("mtvrpCheckCapCmp", "Cmp", ".le",
       "mtvrp/env.py:check_solution_validity._check_c1  `used_cap <= vehicle_capacity.squeeze(-1)`",
       c(MT, "MTVRPEnv.check_solution_validity", "used_cap", "td['vehicle_capacity'].squeeze(-1)"))
+
+
+def _shape_probes(ex):
+    """probes that look at expression shapes rather than at one comparison"""
+    norm = ex.norm
+
+    def fn(name):
+        tree = ex.parse(MT)
+        return ex.find_function(tree, "MTVRPEnv." + name) if tree else None
+
+    def lean_int(v):
+        return f"({v})" if v < 0 else str(v)
+
+    def roll_shift():
+        f = fn("_get_reward")
+        if f is None:
+            return None
+        hits = []
+        for n in ast.walk(f):
+            if isinstance(n, ast.Call) and norm(n.func) == "torch.roll" and len(n.args) >= 2 and norm(n.args[0]) == "go_from":
+                try:
+                    hits.append(int(ast.literal_eval(n.args[1])))
+                except Exception:
+                    return None
+        return lean_int(hits[0]) if len(hits) == 1 else None
+
+    def free_leg_is_to():
+        # `~((X == 0) & td["open_route"])` in _get_reward: X = go_to → true, X = go_from → false
+        f = fn("_get_reward")
+        if f is None:
+            return None
+        hits = []
+        for n in ast.walk(f):
+            if isinstance(n, ast.UnaryOp) and isinstance(n.op, ast.Invert) and isinstance(n.operand, ast.BinOp) \
+                    and isinstance(n.operand.op, ast.BitAnd):
+                sides = [n.operand.left, n.operand.right]
+                if not any(norm(x) == "td['open_route']" for x in sides):
+                    continue
+                for x in sides:
+                    if isinstance(x, ast.Compare) and len(x.ops) == 1 and isinstance(x.ops[0], ast.Eq) \
+                            and norm(x.comparators[0]) == "0" and norm(x.left) in ("go_to", "go_from"):
+                        hits.append(norm(x.left))
+        return {"go_to": "true", "go_from": "false"}.get(hits[0]) if len(hits) == 1 else None
+
+    def step_guard():
+        # every `(curr_node[:, None] <op> 0) * (...)` multiplier of _step must use the same operator
+        f = fn("_step")
+        if f is None:
+            return None
+        ops = set()
+        for n in ast.walk(f):
+            if isinstance(n, ast.Compare) and len(n.ops) == 1 and type(n.ops[0]) in ex.CMP \
+                    and norm(n.left) == "curr_node[:,None]" and norm(n.comparators[0]) == "0":
+                ops.add(ex.CMP[type(n.ops[0])])
+        return "." + ops.pop() if len(ops) == 1 else None
+
+    def step_clock_div_speed():
+        # torch.max(td["current_time"] + <leg>, start_times): <leg> = distance / td["speed"] → true, distance → false
+        f = fn("_step")
+        if f is None:
+            return None
+        hits = []
+        for n in ast.walk(f):
+            if isinstance(n, ast.Call) and norm(n.func) == "torch.max" and len(n.args) == 2 and norm(n.args[1]) == "start_times":
+                a = n.args[0]
+                if isinstance(a, ast.BinOp) and isinstance(a.op, ast.Add) and norm(a.left) == "td['current_time']":
+                    hits.append(norm(a.right))
+        if len(hits) != 1:
+            return None
+        return {"distance/td['speed']": "true", "distance": "false"}.get(hits[0])
+
+    def depot_rule():
+        # can_visit[:, 0] = ~((curr_node <op1> 0) & (can_visit[:, 1:].sum(-1) <op2> 0))
+        f = fn("get_action_mask")
+        if f is None:
+            return None
+        for n in ast.walk(f):
+            if isinstance(n, ast.Assign) and len(n.targets) == 1 and norm(n.targets[0]) == "can_visit[:,0]":
+                v, neg = n.value, False
+                if isinstance(v, ast.UnaryOp) and isinstance(v.op, ast.Invert):
+                    v, neg = v.operand, True
+                if isinstance(v, ast.BinOp) and isinstance(v.op, ast.BitAnd):
+                    l, r = v.left, v.right
+                    if all(isinstance(x, ast.Compare) and len(x.ops) == 1 and type(x.ops[0]) in ex.CMP
+                           and norm(x.comparators[0]) == "0" for x in (l, r)) \
+                            and norm(l.left) == "curr_node" and norm(r.left) == "can_visit[:,1:].sum(-1)":
+                        return neg, "." + ex.CMP[type(l.ops[0])], "." + ex.CMP[type(r.ops[0])]
+        return None
+
+    def start_expr():
+        # selected = (torch.arange(num_starts, ...).repeat_interleave(td.shape[0]) % num_loc + <c>)
+        f = fn("select_start_nodes")
+        if f is None:
+            return None
+        for n in ast.walk(f):
+            if isinstance(n, ast.Assign) and len(n.targets) == 1 and norm(n.targets[0]) == "selected":
+                v = n.value
+                if isinstance(v, ast.BinOp) and isinstance(v.op, ast.Add) and isinstance(v.right, ast.Constant) \
+                        and isinstance(v.left, ast.BinOp) and isinstance(v.left.op, ast.Mod):
+                    base, mod = norm(v.left.left), norm(v.left.right)
+                    if base.startswith("torch.arange(num_starts") and ".repeat_interleave(td.shape[0])" in base:
+                        return int(v.right.value), mod
+        return None
+
+    def check_free_leg():
+        # curr_length = curr_length + dist * ~(td["open_route"].squeeze(-1) & (next_node <op> 0))
+        f = fn("check_solution_validity")
+        if f is None:
+            return None
+        hits = []
+        for n in ast.walk(f):
+            if isinstance(n, ast.UnaryOp) and isinstance(n.op, ast.Invert) and isinstance(n.operand, ast.BinOp) \
+                    and isinstance(n.operand.op, ast.BitAnd):
+                l, r = n.operand.left, n.operand.right
+                if norm(l) == "td['open_route'].squeeze(-1)" and isinstance(r, ast.Compare) and len(r.ops) == 1 \
+                        and type(r.ops[0]) in ex.CMP and norm(r.left) == "next_node" and norm(r.comparators[0]) == "0":
+                    hits.append("." + ex.CMP[type(r.ops[0])])
+        return hits[0] if len(hits) == 1 else None
+
+    def check_clock_div_speed():
+        f = fn("check_solution_validity")
+        if f is None:
+            return None
+        hits = []
+        for n in ast.walk(f):
+            if isinstance(n, ast.Call) and norm(n.func) == "torch.max" and len(n.args) == 2:
+                a = n.args[0]
+                if isinstance(a, ast.BinOp) and isinstance(a.op, ast.Add) and norm(a.left) == "curr_time":
+                    hits.append(norm(a.right))
+        if len(hits) != 1:
+            return None
+        return {"dist/td['speed'].squeeze(-1)": "true", "dist": "false"}.get(hits[0])
+
+    def check_c1_guard():
+        # used_cap = used_cap * (actions[:, ii] <op> 0)
+        f = fn("check_solution_validity")
+        if f is None:
+            return None
+        hits = []
+        for n in ast.walk(f):
+            if isinstance(n, ast.BinOp) and isinstance(n.op, ast.Mult) and norm(n.left) == "used_cap" \
+                    and isinstance(n.right, ast.Compare) and len(n.right.ops) == 1 and type(n.right.ops[0]) in ex.CMP \
+                    and norm(n.right.left) == "actions[:,ii]" and norm(n.right.comparators[0]) == "0":
+                hits.append("." + ex.CMP[type(n.right.ops[0])])
+        return hits[0] if len(hits) == 1 else None
+
+    p = ex.probe
+    p("mtvrpCheckFreeLegCmp", "Cmp", ".eq",
+      "mtvrp/env.py:check_solution_validity  `dist * ~(td['open_route'].squeeze(-1) & (next_node == 0))` (per-row flag)", check_free_leg)
+    p("mtvrpCheckClockDivSpeed", "Bool", "true",
+      "mtvrp/env.py:check_solution_validity  `torch.max(curr_time + dist / td['speed'].squeeze(-1), …)`", check_clock_div_speed)
+    p("mtvrpCheckC1GuardCmp", "Cmp", ".ne",
+      "mtvrp/env.py:check_solution_validity._check_c1  `used_cap = used_cap * (actions[:, ii] != 0)`", check_c1_guard)
+    p("mtvrpStartOffset", "Nat", "1", "mtvrp/env.py:select_start_nodes  `arange(num_starts).repeat_interleave(B) % num_loc + 1`",
+      lambda: (lambda r: None if r is None or r[0] < 0 else str(r[0]))(start_expr()))
+    p("mtvrpStartModIsNumLoc", "Bool", "true",
+      "mtvrp/env.py:select_start_nodes  the modulus is `num_loc` (= number of customers, `locs.shape[-2] - 1`)",
+      lambda: (lambda r: None if r is None else ("true" if r[1] == "num_loc" else "false"))(start_expr()))
+    p("mtvrpRewardRollShift", "Int", "(-1)", "mtvrp/env.py:_get_reward  `go_to = torch.roll(go_from, -1, dims=1)`", roll_shift)
+    p("mtvrpRewardFreeLegIsTo", "Bool", "true",
+      "mtvrp/env.py:_get_reward  `distances * ~((go_to == 0) & td['open_route'])`: the END of the leg is tested against the depot",
+      free_leg_is_to)
+    p("mtvrpStepGuardCmp", "Cmp", ".ne",
+      "mtvrp/env.py:_step  `(curr_node[:, None] != 0) * (...)` (clock, route length, both loads reset at the depot)", step_guard)
+    p("mtvrpStepClockDivSpeed", "Bool", "true",
+      "mtvrp/env.py:_step  `torch.max(td['current_time'] + distance / td['speed'], start_times) + service_time`",
+      step_clock_div_speed)
+    p("mtvrpDepotRuleNegated", "Bool", "true",
+      "mtvrp/env.py:get_action_mask  `can_visit[:, 0] = ~(...)`",
+      lambda: (lambda r: None if r is None else ("true" if r[0] else "false"))(depot_rule()))
+    p("mtvrpDepotRuleCurCmp", "Cmp", ".eq", "mtvrp/env.py:get_action_mask  depot rule `curr_node == 0`",
+      lambda: (lambda r: None if r is None else r[1])(depot_rule()))
+    p("mtvrpDepotRuleAnyCmp", "Cmp", ".gt", "mtvrp/env.py:get_action_mask  depot rule `can_visit[:, 1:].sum(-1) > 0`",
+      lambda: (lambda r: None if r is None else r[2])(depot_rule()))
